@@ -537,8 +537,21 @@ impl Axecutor {
         data: Vec<u8>,
         name: Option<String>,
     ) -> Result<(), AxError> {
+        // The new area [start, end) must not wrap around the end of the address space and must not
+        // intersect any existing area (computed in u128: an area may end exactly at 2^64)
+        let end = start as u128 + data.len() as u128;
+        if end > 1u128 << 64 {
+            return Err(AxError::from(format!(
+                "cannot create memory area {} with start={:#x}, length={:#x}: it would wrap around the end of the address space",
+                name.unwrap_or_else(|| "<unnamed>".to_string()), start, data.len()
+            )));
+        }
+
         for area in &self.state.memory {
-            if start >= area.start && start < area.start + area.length {
+            let area_end = area.start as u128 + area.length as u128;
+            let start_inside = start >= area.start && (start as u128) < area_end;
+            let intersects = (start as u128) < area_end && (area.start as u128) < end;
+            if start_inside || intersects {
                 let overlap_name = area
                     .name
                     .to_owned()
